@@ -337,24 +337,34 @@ func (l *Ledger) scan(tag string, quiet bool) (int, error) {
 // LiveWALFrames returns the number of valid frames (committed or not) in the
 // live WAL generation, decoded independently.
 func LiveWALFrames(walPath string, pageSize int) (int, error) {
+	n, _, err := WALFrameCounts(walPath, pageSize)
+	return n, err
+}
+
+// WALFrameCounts returns the number of valid frames of the live WAL generation
+// and how many of them are committed (up to and including the last commit
+// frame - what SQLite calls mxFrame after recovery). Valid frames behind the
+// last commit frame belong to a rolled-back or still open transaction whose
+// pages spilled out of the page cache; the next writer overwrites them.
+func WALFrameCounts(walPath string, pageSize int) (valid, committed int, err error) {
 	b, err := os.ReadFile(walPath)
 	if err != nil {
 		if os.IsNotExist(err) {
-			return 0, nil
+			return 0, 0, nil
 		}
-		return 0, err
+		return 0, 0, err
 	}
 	if len(b) < 32 {
-		return 0, nil
+		return 0, 0, nil
 	}
 	magic := binary.BigEndian.Uint32(b[0:])
 	if magic != 0x377f0682 && magic != 0x377f0683 {
-		return 0, nil
+		return 0, 0, nil
 	}
 	big := magic == 0x377f0683
 	c1, c2 := walChecksum(big, 0, 0, b[:24])
 	if c1 != binary.BigEndian.Uint32(b[24:]) || c2 != binary.BigEndian.Uint32(b[28:]) {
-		return 0, nil
+		return 0, 0, nil
 	}
 	s1, s2 := binary.BigEndian.Uint32(b[16:]), binary.BigEndian.Uint32(b[20:])
 	fs := 24 + pageSize
@@ -370,8 +380,11 @@ func LiveWALFrames(walPath string, pageSize int) (int, error) {
 			break
 		}
 		n++
+		if binary.BigEndian.Uint32(fr[4:]) != 0 {
+			committed = n
+		}
 	}
-	return n, nil
+	return n, committed, nil
 }
 
 // CrossCheck lets real SQLite recover and checkpoint a copy of db+wal and
